@@ -19,6 +19,8 @@ fn main() {
         lock_acquire: vsched::hook_lock_acquire,
         lock_release: vsched::hook_lock_release,
     });
+    #[cfg(s4_verif)]
+    s4lib::verif::set_join_callback(vsched::hook_join);
     let code = s4::main();
     let c = if code == std::process::ExitCode::SUCCESS { 0 } else { 1 };
     if vsched::controlled() {
